@@ -274,8 +274,8 @@ var (
 	posVals     = []string{"1", "2", "3", "5", "7", "8", "10", "12", "63", "64", "100", "255", "1024", "4294967296"}
 	smallVals   = []string{"0", "1", "2", "3", "4", "5", "8"}
 
-	anyLits   = []string{"0", "1", "2", "3", "4", "5", "7", "10", "12", "100", "1000", "0.5", "2.5", "3.25", "123.456", "0.1", "0.001", "1.5", "4294967296", "9007199254740993", "9223372036854775807", "9223372036854775808", "18446744073709551616", "1000000000000000000000", "0x1BC", "0xFF", "0x10", "0x0", "0xDEADBEEF", "0b1101", "0b0", "0b1", "0b100"}
-	intLits   = []string{"0", "1", "2", "3", "4", "5", "7", "8", "10", "12", "16", "100", "255", "1000", "0x1BC", "0xFF", "0x10", "0b1101", "0b100", "0b1", "4294967296"}
+	anyLits   = []string{"0", "1", "2", "3", "4", "5", "7", "10", "12", "100", "1000", "0.5", "2.5", "3.25", "123.456", "0.1", "0.001", "1.5", "4294967296", "9007199254740993", "9223372036854775807", "9223372036854775808", "18446744073709551616", "1000000000000000000000", "0x1BC", "0xFF", "0x10", "0x0", "0xDEADBEEF", "0x1E", "0xFE", "0xE", "0x2E", "0b1101", "0b0", "0b1", "0b100"}
+	intLits   = []string{"0", "1", "2", "3", "4", "5", "7", "8", "10", "12", "16", "100", "255", "1000", "0x1BC", "0xFF", "0x10", "0x1E", "0xFE", "0b1101", "0b100", "0b1", "4294967296"}
 	posLits   = []string{"1", "2", "3", "4", "5", "7", "8", "10", "12", "16", "100", "255", "1000", "0x1BC", "0xFF", "0x10", "0b1101", "0b100", "0b1", "4294967296"}
 	smallLits = []string{"0", "1", "2", "3", "4", "5", "8", "0b11", "0x2"}
 
